@@ -362,3 +362,7 @@ S(id="G.history.native", props=["C14", "C15"], spec="native/history_enum.c", mod
   bound="every applicable history of <= 5 (thorough 6) operations over two objects; 10 operations (create, 3 definitions, 2 lookahead settings, 3 parses, free)",
   functions=["yaep_create_grammar", "yaep_parse_grammar", "yaep_read_grammar", "yaep_set_lookahead_level", "yaep_parse", "yaep_free_grammar", "yaep_free_tree"],
   what="each call returns what a fresh object with the same definition and settings returns (return codes, yaep_error_code, root, syntax-error calls); no memory error, nothing leaked at the end (ASan/LSan)")
+S(id="OS.string", props=["C19", "C12", "C13"], harness="h_os_add_string", mode="L", canaries=2, enforce=["_OS_add_string_function/os_add_string_c"],
+  replace=["_OS_expand_memory/os_expand_use_c", "strlen/strlen_gh_c"], functions=["_OS_add_string_function"],
+  what="the string with its NUL is appended after dropping the previous terminator; appended bytes equal the source (ghost index), earlier bytes unchanged, writes stay inside the segment",
+  assumes=["A2: strlen returns the index of the terminating NUL (contract tied to a ghost length)"], **OS)
